@@ -499,6 +499,7 @@ package graphql
 //@   pure
 //@ func collectFields [C01,C07,C13]
 //@   requires reqCtx != nil
+//@   replay collectFieldsSpread.go.tmpl
 //@   ghost inc = false
 //@   at `shouldIncludeNode(sel.Directives, reqCtx.Variables)`#1 requires arg0 == sel.Directives
 //@   at `shouldIncludeNode(sel.Directives, reqCtx.Variables)`#1 ghost inc = callres0
@@ -518,6 +519,9 @@ package graphql
 //@   at `deferrable(sel.Directives, reqCtx.Variables)`#1 requires inc
 //@   at `shouldIncludeNode(sel.Directives, reqCtx.Variables)`#3 ghost inc = callres0
 //@   at `deferrable(sel.Directives, reqCtx.Variables)`#2 requires inc
+// a fragment counts as visited only through a spread that passed @skip/@include (a skipped spread must not hide
+// the fragment from a later, included spread), and only under its own name
+//@   at `assign visited[*]` requires inc && rhs0 && idx == sel.Name
 //@   ensures calls(shouldIncludeNode) >= 0
 
 // Error bookkeeping: AddError records exactly one presented error for a non-nil error and nothing for nil.
